@@ -67,7 +67,7 @@ def build_nfa(src):
         N = U.random_nfa(rng, k, "ab", eps=rng.choice(EPSS[:3]), prefix="s", density=0.12)
         for i in range(k - 1):
             if rng.random() < 0.7:
-                N.delta["s%d" % i, N.epsilon] = set(N.delta["s%d" % i, N.epsilon]) | {"s%d" % (i + 1)}
+                N.delta["s%d" % i, N.epsilon] = set(N.delta.get(("s%d" % i, N.epsilon), set())) | {"s%d" % (i + 1)}
         return N
     S = rng.choice(src.get("alphabets", ["a", "ab", "ab", "abc", "", "01"]))
     k = rng.randint(1, src.get("maxk", 6))
